@@ -30,9 +30,9 @@ def shouldNotifyPeer (t : Unit) (reason : Nat) : Bool :=
 end ctunnel.Tunnel
 
 namespace Skel
-def Bridge_Close : List String := ["sourceConnMu.Lock", "sourceForwarder.Close", "sourceConnMu.Unlock", "tunnelConnMu.Lock", "targetForwarder.Close", "sourceTunnelConn.Close", "targetTunnelConn.Close", "sourceConn.Close", "targetConn.Close", "sourceStream.Close", "targetStream.Close", "tunnelConnMu.Unlock", "ManagerBase.Close"]
 def Bridge_cleanup : List String := ["reportTrafficStats", "quotaEnforcer.UnregisterMeter", "ReleaseCrossNodeConnection"]
-def Bridge_reportTrafficStats : List String := ["reportMu.Lock", "reportMu.Lock", "reportMu.Unlock", "bytesSent.Load", "bytesReceived.Load", "lastReportedSent.Load", "lastReportedReceived.Load", "cloudControl.GetPortMapping", "cloudControl.UpdatePortMappingStats", "lastReportedSent.Store", "lastReportedReceived.Store"]
+def Bridge_reportTrafficStats : List String := ["reportMu.Lock", "reportMu.Unlock", "bytesSent.Load", "bytesReceived.Load", "lastReportedSent.Load", "lastReportedReceived.Load", "cloudControl.GetPortMapping", "cloudControl.UpdatePortMappingStats", "lastReportedSent.Store", "lastReportedReceived.Store"]
+def C16_Bridge_Close : List String := ["sourceConnMu.Lock", "sourceForwarder.Close", "sourceConnMu.Unlock", "tunnelConnMu.Lock", "targetForwarder.Close", "sourceTunnelConn.Close", "targetTunnelConn.Close", "sourceConn.Close", "targetConn.Close", "sourceStream.Close", "targetStream.Close", "tunnelConnMu.Unlock", "ManagerBase.Close"]
 def Dispose_Close : List String := ["currentLock.Lock", "currentLock.Unlock", "cancel", "runCleanHandlers"]
 def Dispose_runCleanHandlers : List String := ["linkLock.Lock", "copy", "linkLock.Unlock", "handler"]
 def StreamProcessor_acquireReadLock : List String := ["readLock.Lock", "Dispose.IsClosed", "readLock.Unlock", "readLock.Unlock"]
